@@ -196,8 +196,12 @@ def d4convAnswer (args : List String) : String :=
         let total := tf.toNat?.getD 0
         let (n, nodes, _) := D4.load parsed total
         if n > 10 then "ok conv=0"
-        else if D4.conventionsB parsed total then
-          (if wfB nodes n then "ok conv=1" else "CONTRADICTION: conventions hold, loaded array not WF")
+        else if D4.conventions2B parsed total then
+          -- `conventions2B_sound`: well formed, unique literal leaves, every node but the root has a parent
+          (if wfB nodes n && litUniqueB nodes &&
+              ((List.range (nodes.length - 1)).all fun j =>
+                (List.range nodes.length).any fun i => j < i && (children (nodes.getD i .tru)).contains j)
+           then "ok conv=1" else "CONTRADICTION: conventions hold, loaded array not WF / LitUnique / HasParents")
         else "ok conv=0"
   | _ => "bad-args"
 
